@@ -409,6 +409,9 @@ func anyOfMembers(tier string, cfg gen.Config) []member {
 			// a branch that is a reference to a definition WITHOUT any validation (no required, no constraint): it still needs the unmarshalers the validator calls
 			plainDef := &fam.Spec{Kind: "object", Ref: "$defs", Props: []*fam.Prop{{Label: "a", Spec: &fam.Spec{Kind: "string"}}}}
 			out = append(out, member{name: "anyOf property with a referenced branch without validation", cfg: cfg, root: &fam.Spec{Kind: "object", Props: []*fam.Prop{{Label: "u", Spec: &fam.Spec{Kind: "object", AnyOf: []*fam.Spec{plainDef, branch(1)}}}}}})
+			// an object branch next to a primitive branch (valid JSON Schema; the merged type must at least compile)
+			out = append(out, member{name: "anyOf mixing an object branch and a primitive branch", cfg: cfg, tag: "anyOf with an object and a primitive branch",
+				root: &fam.Spec{Kind: "object", Props: []*fam.Prop{{Label: "u", Spec: &fam.Spec{Kind: "object", AnyOf: []*fam.Spec{branch(0), {Kind: "string"}}}}}}})
 			// an anyOf DEFINITION that two properties refer to (one type, generated once)
 			var bs3 []*fam.Spec
 			for i := 0; i < n; i++ {
